@@ -4,7 +4,7 @@ Each function has a contract in CONTRACTS (same format as /verif/contracts) stro
 tools/conformance.py (1) lets pyvc prove the contract from this source and (2) runs the function in CPython on random
 inputs and evaluates the same contract natively.  A contract that pyvc proves but CPython violates is an unsound encoding.
 """
-from itertools import product, combinations
+from itertools import product, combinations, permutations
 from bisect import bisect_right
 
 
@@ -158,6 +158,42 @@ def comb_gaps(n):
     return c
 
 
+def perm_order(n):
+    prev = -1
+    cnt = 0
+    for (a, b, c) in permutations(range(n), 3):
+        cur = a * 10000 + b * 100 + c
+        assert cur > prev
+        assert a != b and b != c and a != c
+        prev = cur
+        cnt += 1
+    return prev
+
+
+def comb3_order(n):
+    prev = -1
+    for (a, b, c) in combinations(range(n), 3):
+        cur = a * 10000 + b * 100 + c
+        assert cur > prev
+        assert a < b and b < c
+        prev = cur
+    return prev
+
+
+def perm_count5():
+    cnt = 0
+    for (a, b, c) in permutations(range(5), 3):
+        cnt += 1
+    return cnt
+
+
+def comb3_count5():
+    cnt = 0
+    for (a, b, c) in combinations(range(5), 3):
+        cnt += 1
+    return cnt
+
+
 C = 'conformance/cases.py'
 def fill_table(n, s):
     t = [s]
@@ -199,6 +235,31 @@ def picks(n):
 
 
 CONTRACTS = {
+    # ... and none is missing: 5*4*3 = 60 arrangements, C(5,3) = 10 subsets
+    (C, 'perm_count5'): {'params': {}, 'raises': {}, 'returns': 'int',
+                         'loops': {0: {'nest': [{'counter': '_a', 'inv': ['cnt == _a * 12']},
+                                                {'counter': '_b', 'ghost_at_entry_vals': {'C2': 'cnt'}, 'inv': ['cnt == C2 + (_b - ite(a < _b, 1, 0)) * 3']},
+                                                {'ghost_at_entry_vals': {'C3': 'cnt'},
+                                                 'inv': ['cnt == C3 + ite(a == b, 0, _it - ite(a < _it, 1, 0) - ite(b < _it, 1, 0))']}]}},
+                         'ensures': ['result == 60']},
+    (C, 'comb3_count5'): {'params': {}, 'raises': {}, 'returns': 'int',
+                          'loops': {0: {'nest': [{'counter': '_a', 'inv': ['cnt == ite(_a == 0, 0, ite(_a == 1, 6, ite(_a == 2, 9, 10)))']},
+                                                 {'counter': '_b', 'ghost_at_entry_vals': {'C2': 'cnt'},
+                                                  'inv': ['2 * (cnt - C2) == 2 * _b * (3 - a) - _b * (_b - 1)', '_b <= 4 - a or a >= 4']},
+                                                 {'ghost_at_entry_vals': {'C3': 'cnt'}, 'inv': ['cnt == C3 + _it']}]}},
+                          'ensures': ['result == 10']},
+    # permutations(R, 3) / combinations(R, 3): the desugared nested loops visit tuples in strictly increasing (itertools) order,
+    # without repetition (the asserts are hazard obligations for pyvc and run natively in CPython)
+    (C, 'perm_order'): {'params': {'n': 'int'}, 'requires': ['n <= 9'], 'raises': {}, 'returns': 'int',
+                        'loops': {0: {'nest': [{'counter': '_a', 'inv': ['prev < _a * 10000', 'prev >= -1']},
+                                               {'counter': '_b', 'inv': ['prev < a * 10000 + _b * 100', 'prev >= -1']},
+                                               {'inv': ['prev < a * 10000 + b * 100 + _it', 'prev >= -1']}]}},
+                        'ensures': ['result >= -1']},
+    (C, 'comb3_order'): {'params': {'n': 'int'}, 'requires': ['n <= 9'], 'raises': {}, 'returns': 'int',
+                         'loops': {0: {'nest': [{'counter': '_a', 'inv': ['prev < _a * 10000', 'prev >= -1']},
+                                                {'counter': '_b', 'inv': ['prev < a * 10000 + (a + 1 + _b) * 100', 'prev >= -1']},
+                                                {'inv': ['prev < a * 10000 + b * 100 + b + 1 + _it', 'prev >= -1']}]}},
+                         'ensures': ['result >= -1']},
     # sorted() of a pair, f(*t) for a tuple of known length, a 1-based table [None, ...] searched with bisect_right
     (C, 'sorted_pair'): {'params': {'a': 'int', 'b': 'int'}, 'raises': {}, 'returns': 'tuple:int,int',
                          'ensures': ['result[0] <= result[1]', '(result[0] == a and result[1] == b) or (result[0] == b and result[1] == a)']},
